@@ -135,7 +135,7 @@ impl Kind {
 fn tweak_for(kind: Kind, id: usize, number: u64, fdl: u64) -> Tweak {
     match kind {
         Kind::Valid => Tweak::None,
-        Kind::Nc => Tweak::TxRoot,
+        Kind::Nc => unreachable!("built by build_nc_invalid"),
         Kind::Ctx => {
             let n = if number > fdl { 3 } else { 2 };
             match id % n {
@@ -181,10 +181,30 @@ fn genesis_blk(consensus: &ckb_chain_spec::consensus::Consensus) -> Blk {
     }
 }
 
+/// A block that fails non-contextual verification (`MerkleRootVerifier`): a valid block whose
+/// header's transactions_root is overwritten. (`Tweak::TxRoot` of node.rs goes through
+/// `packed::Block::into_view`, which recomputes the roots, so it yields a valid block; it is used
+/// here only to keep the valid original out of the builder's branch stores.) The corrupted block is
+/// registered in the builder so that children can be built on it.
+fn build_nc_invalid(b: &mut ChainBuilder, parent: &Byte32, salt: u64) -> BlockView {
+    let v = b.build(parent, &BlockSpec { salt, tweak: Tweak::TxRoot, ..Default::default() });
+    let raw = v.data().header().raw().as_builder().transactions_root(Byte32::zero()).build();
+    let header = v.data().header().as_builder().raw(raw).build();
+    let block = v.data().as_builder().header(header).build().into_view_without_reset_header();
+    assert!(block.transactions_root() != block.calc_transactions_root() && block.hash() != v.hash());
+    b.blocks.remove(&v.hash());
+    b.blocks.insert(block.hash(), block.clone());
+    block
+}
+
 fn build_blk(b: &mut ChainBuilder, id: usize, parent: &Blk, kind: Kind) -> Blk {
     let fdl = b.consensus.finalization_delay_length();
-    let tweak = tweak_for(kind, id, parent.num + 1, fdl);
-    let block = b.build(&parent.hash, &BlockSpec { salt: id as u64, tweak, ..Default::default() });
+    let block = if kind == Kind::Nc {
+        build_nc_invalid(b, &parent.hash, id as u64)
+    } else {
+        let tweak = tweak_for(kind, id, parent.num + 1, fdl);
+        b.build(&parent.hash, &BlockSpec { salt: id as u64, tweak, ..Default::default() })
+    };
     Blk {
         id,
         parent: parent.id,
@@ -676,7 +696,7 @@ fn selftest(base: &Path) {
     }
     for parent in [&below, &tip] {
         salt += 1;
-        let bad = b.build(parent, &BlockSpec { salt, tweak: Tweak::TxRoot, ..Default::default() });
+        let bad = build_nc_invalid(&mut b, parent, salt);
         let r = node.process(&bad);
         assert!(r.is_err(), "selftest: TxRoot block must fail, got {r:?}");
         assert_eq!(node.shared.get_block_status(&bad.hash()), BlockStatus::BLOCK_INVALID, "selftest: TxRoot block must be marked BLOCK_INVALID");
